@@ -224,6 +224,11 @@ class Context:
         # Store for other constructors to use
         self._object_prototype = object_prototype
 
+        def read(obj, key):
+            # [[Get]] as the running script performs it: own getters run with obj as this
+            vm = self._current_vm
+            return vm._get_property(obj, key) if vm is not None else obj.get(key)
+
         def keys_fn(*args):
             obj = args[0] if args else UNDEFINED
             if not isinstance(obj, JSObject):
@@ -237,7 +242,7 @@ class Context:
             if not isinstance(obj, JSObject):
                 return JSArray()
             arr = JSArray()
-            arr._elements = [obj.get(k) for k in obj.keys()]
+            arr._elements = [read(obj, k) for k in obj.keys()]
             return arr
 
         def entries_fn(*args):
@@ -248,7 +253,7 @@ class Context:
             arr._elements = []
             for k in obj.keys():
                 entry = JSArray()
-                entry._elements = [k, obj.get(k)]
+                entry._elements = [k, read(obj, k)]
                 arr._elements.append(entry)
             return arr
 
@@ -261,8 +266,13 @@ class Context:
             for i in range(1, len(args)):
                 source = args[i]
                 if isinstance(source, JSObject):
+                    # [[Get]] on the source, [[Set]] on the target (setters run)
+                    vm = self._current_vm
                     for k in source.keys():
-                        target.set(k, source.get(k))
+                        if vm is not None:
+                            vm._set_property(target, k, read(source, k))
+                        else:
+                            target.set(k, source.get(k))
             return target
 
         def get_prototype_of(*args):
